@@ -473,7 +473,10 @@ impl<
             // The first transition is a dummy that we insert, so if we land on
             // it here, treat it as if it doesn't exist.
             return None;
-        } else if index >= self.timestamps().len() - 1 {
+        } else if index >= self.timestamps().len() {
+            // There are no explicit transitions after the timestamp given,
+            // so the only transitions left (if any) come from the POSIX TZ
+            // string.
             if let Some(posix_tz) = self.posix_tz() {
                 // Since the POSIX TZ must be consistent with the last
                 // transition, it must be the case that next.timestamp <=
@@ -492,7 +495,9 @@ impl<
                 // future time zone transitions.
                 return posix_tz.next_transition(ts);
             }
-            self.timestamps().len() - 1
+            // No POSIX TZ string either, so there is nothing after the last
+            // explicit transition.
+            return None;
         } else {
             index
         };
